@@ -54,6 +54,12 @@ CHECKS = {
         text="A table of programs writes through every parameter kind, to constants, copies whole arrays/views/structs and passes pointer arguments with and without &: verdicts must match E530-E533/E513. Generated programs bracket every call with prints of all caller locals; after execution a checker that does not use the reference interpreter asserts that a variable changed across a call only if the caller wrote & on it (or on a pointer that may point to it).",
         note="Points-to sets of the generated caller are flow-insensitive (sound over-approximation of the legitimate channel).",
         design="5 C08"),
+    "C09": dict(
+        category="exploration",
+        technique="runtime monitor: literal matrix compiled and executed, printed values and L1142 lint lines compared with the mathematical value of each spelling",
+        text="Every integer type x boundary and random values x spellings (decimal, 0x, 0b, underscores, leading zeros, case) x typing mode x negation, 40 literals per program attributed by line: in-range literals must print exactly their value without L1142, out-of-range ones must raise L1142 on their line; all 256 byte values through every char-literal form; random strings (\\xHH, escapes, \\u{..} boundaries, adjacent-literal concatenation) observed byte by byte; malformed forms must be rejected with E140/E141/E160-E163.",
+        note="`-0x80i8` is treated as the operator `-` on the literal `0x80i8` (sign folding is documented for decimal literals only). Out-of-range literals: only the lint is asserted.",
+        design="5 C09"),
 }
 
 
